@@ -1,6 +1,8 @@
 """C15  MA and ARMA estimators return valid, invertible models."""
 import numpy as np
 
+import single
+
 import proto
 from common import gen_data, rel
 
@@ -231,7 +233,10 @@ def _in_domain(N, P, Q, lag):
     return Q <= lag and lag + 2 * P - Q <= N and 2 * Q < N - P and lag < N and lag - Q >= P and Q >= 1
 
 
+KINDS["single"] = single.kind("C15")
+
 def gen(rng, nrng, tier):
+    yield from single.gen("C15", nrng, tier)
     n = 70 if tier == "quick" else 1000
     for i in range(n):
         cplx = bool(nrng.integers(0, 2))
